@@ -1,6 +1,6 @@
 #!/bin/sh
 # offline setup: nothing to build ahead of time (every check regenerates what it needs); just verify tools exist
-for t in cbmc goto-cc goto-instrument g++ python3; do command -v $t >/dev/null || { echo "missing $t"; exit 1; }; done
+for t in cbmc goto-cc goto-instrument g++ gcc python3 z3; do command -v $t >/dev/null || { echo "missing $t"; exit 1; }; done
 cbmc --version
 mkdir -p /verif/evidence /verif/replays
 exit 0
